@@ -1,0 +1,30 @@
+//go:build verif
+
+// Machine-checked contracts for package api (comment-only; build tag "verif").
+// Read by /verif/bin/nriverif.
+
+package api
+
+// ---------------------------------------------------------------------------
+// Optional-value constructors (optional.go)
+// ---------------------------------------------------------------------------
+// typeis(v, "T"): the dynamic type of interface value v is T; ifaceval(v, "T"): its payload.
+
+//@ template optCtor(F, OT, T)
+//@ func $F
+//@   props C14 C03 C04 C05
+//@   ensures [nil]     v == nil ==> result == nil
+//@   ensures [own]     typeis(v, "$T") ==> result != nil && result.Value == ifaceval(v, "$T")
+//@   ensures [ptrnil]  typeis(v, "*$T") && ifaceval(v, "*$T") == nil ==> result == nil
+//@   ensures [ptr]     typeis(v, "*$T") && ifaceval(v, "*$T") != nil ==> result != nil && result.Value == deref(ifaceval(v, "*$T"))
+//@   ensures [wrapnil] typeis(v, "*$OT") && ifaceval(v, "*$OT") == nil ==> result == nil
+//@   ensures [wrap]    typeis(v, "*$OT") && ifaceval(v, "*$OT") != nil ==> result != nil && result.Value == ifaceval(v, "*$OT").Value
+//@   ensures [fresh]   result != nil ==> fresh(result)
+//@ end
+
+//@ apply optCtor(String, OptionalString, string)
+//@ apply optCtor(Int32, OptionalInt32, int32)
+//@ apply optCtor(UInt32, OptionalUInt32, uint32)
+//@ apply optCtor(Int64, OptionalInt64, int64)
+//@ apply optCtor(UInt64, OptionalUInt64, uint64)
+//@ apply optCtor(Bool, OptionalBool, bool)
